@@ -22,6 +22,10 @@ class Rejected(Exception):
     """rex refused the configuration with an explicit exception (DESIGN.md 5.3) -- not a violation."""
 
 
+class CompileError(Rejected):
+    """Graph() failed with an unexpected exception: a C07 matter; every other check counts it as rejected."""
+
+
 def record_experiment(spec, lengths, init_seed=0, mode="run", monitor=None, trace="io", jit_step=True, max_records=400, deadline=90):
     """Run len(lengths) episodes of an A-scenario; returns dict(nodes, sup, gs0, episodes=[run_episode results])."""
     g, nodes, sup, gs0 = D.build_graph(spec, clock="sim", rtf=0, trace=trace, max_records=max_records, jit_step=jit_step, init_seed=init_seed)
@@ -50,13 +54,29 @@ def build_compiled(nodes, sup, cg, mode="mcs", prune=True, **kw):
         if "no nodes in the partition" in str(ex):
             raise Rejected(str(ex))
         raise
-    except Exception as ex:
-        import networkx as nx
+    except Exception as ex:  # NetworkXUnfeasible / AssertionError inside the supergraph library, ...
+        # Any other failure to compile is decided by C07 (see DESIGN.md 5); C01/C06/C08/... count it as rejected.
+        raise CompileError(f"{type(ex).__name__} in Graph(): {ex}")
 
-        if isinstance(ex, nx.NetworkXUnfeasible):
-            # prune=False + zero-delay tie: to_connected_graph closes a cycle (decided by C07, see DESIGN.md 5); not C01/C06/C08's concern
-            raise Rejected(f"NetworkXUnfeasible in Graph(): {ex}")
-        raise
+
+def diagnose_compile_error(nodes, sup, cg):
+    """Is the failure caused by to_connected_graph closing a cycle (prune=False, zero-delay tie)?"""
+    import networkx as nx
+
+    import rex.utils as ru
+
+    wg = ru.apply_window(nodes, cg).to_graph()
+    out = []
+    for e in range(len(wg)):
+        Gx = ru.to_networkx_graph(wg[e], nodes=nodes)
+        dag = nx.is_directed_acyclic_graph(Gx)
+        Gc = ru.to_connected_graph(Gx, sup, nodes)
+        dagc = nx.is_directed_acyclic_graph(Gc)
+        cyc = None
+        if dag and not dagc:
+            cyc = [(u, v, float(Gc.nodes[u]["ts_end"]), float(Gc.nodes[v]["ts_start"])) for u, v in nx.find_cycle(Gc)]
+        out.append(dict(episode=e, windowed_graph_acyclic=dag, connected_graph_acyclic=dagc, cycle=cyc))
+    return out
 
 
 def generated_graph(spec, ts_max=1.0, num_episodes=3, seed=0, trace="io", hash_ts=True):
